@@ -36,6 +36,7 @@ def check(c: Check):
     clause_d(c)
     clause_e(c)
     clause_f(c)
+    clause_g(c)
 
 
 def timeout_origin_ok(ix: Index, m, f, node) -> bool:
@@ -421,3 +422,62 @@ def clause_f(c: Check):
                  'after a failing (e.g. timed-out) step %r cleanup runs %d times and the execution ends with %s' % (
                      fr, len(cleanup), t.terminal), EXECUTOR_MOD)
     c.floor('C19-f', 'post-sandbox failure traces', n, 18)
+
+
+# ---------------------------------------------------------------- g
+def clause_g(c: Check):
+    """PLUMB "the value last set": the stdin of the action to check may be the output of a program. That program is
+    run with the process execution settings (timeout, environment) that are in force when the action to check is
+    executed - the settings of the ApplicationEnvironment handed to `resolve(environment)` by the act execution -
+    not the ones of the moment the `stdin` instruction ran. So the `stdin` instruction stores an object that makes
+    the text source from that environment: its main step creates no primitive, and `resolve(environment)` of the
+    stored object passes its own `environment` to `.primitive(..)`."""
+    ix, fo = c.ix, c.fo
+    M = 'exactly_lib.impls.instructions.setup.stdin'
+    main = ix.func(M + ':_Instruction.main')
+
+    class H(Hooks):
+        def inline(self, fd, st):
+            return False
+
+    sb = [p.arg for p in main.positional_params() if 'settings_builder' in p.arg]
+    c.require(len(sb) == 1, 'C19-g: settings builder parameter of stdin main not found')
+    n = 0
+    for p in util.func_paths(ix, fo, main, H()):
+        if p.kind != 'return':
+            continue
+        prims = [e for e in p.calls() if isinstance(e.node.func, ast.Attribute) and e.node.func.attr == 'primitive']
+        c.expect(not prims, 'C19-g', 'stdin-main/no-primitive-created-at-instruction-time',
+                 'the stdin instruction makes the text source while it runs (%s): a program that produces stdin is run '
+                 'with the timeout of that moment, not with the one in force when the action to check is executed' % (
+                     ', '.join(unparse(e.node)[:60] for e in prims)), main.loc())
+        stored = [e for e in p.trace if e.kind == 'setattr' and e.data[1] == 'stdin']
+        for e in stored:
+            base, _, v = e.data
+            r = util.root_sym(base)
+            if not (isinstance(r, Sym) and r.origin and r.origin[:2] == ('param', sb[0])):
+                continue
+            n += 1
+            con = util.constructed(ix, v)
+            k = ix.try_lookup(con[0]) if con is not None and ':' in con[0] else None
+            rs = ix.class_member(k, 'resolve') if isinstance(k, ClassDef) else None
+            ok = isinstance(rs, FuncDef) and len(rs.positional_params()) == 2
+            how = 'an object whose class is not understood (%s)' % util.describe(v)
+            if ok:
+                envp = rs.positional_params()[1].arg
+                ok = False
+                how = 'a %s, whose resolve(%s) does not make the text source from that environment' % (k.name, envp)
+                for q in util.func_paths(ix, fo, rs, H()):
+                    if q.kind != 'return':
+                        continue
+                    o = q.val.origin if isinstance(q.val, Sym) else None
+                    ev = q.trace[o[5]] if o and o[0] == 'call' and o[5] is not None else None
+                    ok = ev is not None and isinstance(ev.node.func, ast.Attribute) and ev.node.func.attr == 'primitive' \
+                         and len(ev.data['args']) == 1 and isinstance(ev.data['args'][0], Sym) \
+                         and ev.data['args'][0].origin[:2] == ('param', envp)
+                    if not ok:
+                        break
+            c.expect(ok, 'C19-g', 'stdin-main/text-source-made-when-the-action-is-executed',
+                     'the stdin instruction stores %s: the program behind stdin is not run with the settings (timeout) in '
+                     'force when the action to check is executed' % how, main.loc())
+    c.floor('C19-g', 'stdin values stored by the stdin instruction', n, 1)
